@@ -7,6 +7,7 @@ import (
 	"flag"
 	"fmt"
 	"os"
+	"runtime/pprof"
 	"sort"
 	"strconv"
 	"strings"
@@ -31,6 +32,12 @@ func main() {
 	dumpSSA := flag.String("ssa", "", "pkg:func - print the SSA form of one function as the rules see it (after normalisation) and exit")
 	noNorm := flag.Bool("no-normalise", false, "do not expand functions that are missing from the inventory")
 	flag.Parse()
+	if pf := os.Getenv("WHARFCHECK_CPUPROFILE"); pf != "" {
+		if f, err := os.Create(pf); err == nil {
+			pprof.StartCPUProfile(f)
+			defer pprof.StopCPUProfile()
+		}
+	}
 	if *dumpFuncs {
 		p, err := core.Load(*repo, 20)
 		if err != nil {
@@ -136,6 +143,7 @@ func main() {
 	skipFixtures = *noFixtures
 	selftestResults = st
 	code := run(pr, *prop, *tier, *repo, *verif, seed, *verbose, replayKey, *noEvidence, t0)
+	pprof.StopCPUProfile()
 	os.Exit(code)
 }
 
